@@ -10,7 +10,7 @@ CONSTANTS
   VDom = {TRUE}
   HasF = FALSE
   HasV = FALSE
-  RunOps = {"krig_u", "krig_m", "krig_mb", "neigh_u", "neigh_m", "neigh_mb", "xvalid_u", "xvalid_m", "vario", "vario_cov", "stat", "stat_iso", "cov", "cov_sym", "drift", "simtub", "simtub_pt", "simtub_exp", "migrate", "migrate_ball", "migrate_grid", "migrate_fill", "reduce", "cov_req", "cov_sym_req", "drift_req", "ranks_req", "krig_on", "simtub_on", "simtub_on_grid"}
+  RunOps = {"krig_u", "krig_m", "krig_mb", "neigh_u", "neigh_m", "neigh_mb", "xvalid_u", "xvalid_m", "vario", "vario_cov", "stat", "stat_iso", "cov", "cov_sym", "drift", "simtub", "simtub_pt", "simtub_exp", "migrate", "migrate_ball", "migrate_grid", "migrate_fill", "reduce", "cov_req", "cov_sym_req", "drift_req", "ranks_req", "krig_on", "simtub_on", "simtub_on_grid", "invdist", "nearest", "movave", "movmed", "lstsqr", "avgcov", "global_arith", "global_krig"}
   EmitMin = 1
 INVARIANT ModelImplementsReduce ReduceIsSound ReduceVarIsSound ReduceExtremes
 CONSTRAINT Emit
